@@ -81,6 +81,8 @@ STAGES["C06"] = [_sm("C06", 3000, 30000)]
 for _pid in ["C03", "C05", "C07", "C13", "C14", "C15", "C17"]:
     STAGES[_pid] = [_sm(_pid, 3000, 20000)]
 STAGES["C09"].append(_sm("C09", 2000, 20000))
+STAGES["C03"].append(dict(name="policy", pkg="ristretto", test="TestVf_C03_Policy", replay_test="TestVfReplay_C09",
+                          quick=(10000, 1), thorough=(100000, 16), crash_is_violation=True))
 STAGES["C14"].append(dict(name="window", pkg="ristretto", test="TestVf_C14_Window", replay_test="TestVfReplay_C14Window",
                           quick=(1, 1), thorough=(1, 1), fixed_cases=True, crash_is_violation=True))
 for _pid in ["C03", "C05", "C07", "C13", "C17"]:
